@@ -114,6 +114,7 @@ type c06H1 struct {
 	panicked  interface{}
 	rowsSeen  int
 	lastEvent string
+	calls     int
 }
 
 // ---- one execution
@@ -126,6 +127,7 @@ type c06Scenario struct {
 	others   string // "", "W", "H2", "H3", "H2+W"
 	h2Select bool
 	grown    bool // the file grows (a committed bulk insert by another process) after the handle was opened, before the call
+	repeat   bool // the same handle makes the call a second time after the first returned (whatever its outcome)
 }
 
 func (s *c06Scenario) String() string {
@@ -144,6 +146,9 @@ func (s *c06Scenario) String() string {
 	}
 	if s.grown {
 		x += " on a file grown after Open"
+	}
+	if s.repeat {
+		x += ", called twice"
 	}
 	return x
 }
@@ -309,6 +314,9 @@ func c06Run(r *ev.Run, c *mc.Ctx, wk *c06Worker, sc *c06Scenario, img []byte) c0
 
 	startH1 := func() {
 		h1.started = true
+		h1.finished = false
+		h1.rowsSeen = 0
+		h1.calls++
 		tracing = true
 		if sc.faultAt > 0 {
 			fp.Arm(sc.faultAt, vpager.FaultError)
@@ -430,9 +438,9 @@ func c06Run(r *ev.Run, c *mc.Ctx, wk *c06Worker, sc *c06Scenario, img []byte) c0
 			run  func()
 		}
 		var alts []alt
-		if !h1.finished {
+		if !h1.finished || (sc.repeat && h1.calls < 2) {
 			alts = append(alts, alt{"H1", func() {
-				if !h1.started {
+				if !h1.started || h1.finished {
 					startH1()
 					h1Next()
 				} else {
@@ -536,7 +544,7 @@ func c06Run(r *ev.Run, c *mc.Ctx, wk *c06Worker, sc *c06Scenario, img []byte) c0
 }
 
 func runC06(r *ev.Run) {
-	r.Rule = "operation under test H1 in {Select, SelectDone, SelectRowid, IndexedSelect, IndexedSelectEq, PKSelect, Columns, on rowid and WITHOUT ROWID tables with overflow rows} x exit paths {normal, stop at row k for every k, callback panics at row k, no such table/column/index, fault at page read k for every k} run on the real file pager under a tracing pager (scheduling points: before/after every lock, unlock, page read, reserved-lock probe, and every row callback); other participants in atomic steps: W = real SQLite writer in another process (BEGIN IMMEDIATE, INSERT, COMMIT with busy_timeout 0), H2 = second sqlittle handle in the same process (Open, RLock, RUnlock, Close / a whole Select), H3 = sqlittle handle in another process; every interleaving with preemption bound 2 (pairs: unbounded in thorough); invariants at every point from /proc/locks: inside the call the process holds READ on the whole shared range, every page read lies inside the locked interval, a COMMIT attempted inside is BUSY, after return nothing is held on the pending byte and shared range and the writer can commit; plus database/sql result sets left open after k rows. non-trivial = executions with at least one preemption or a non-normal exit path"
+	r.Rule = "operation under test H1 in {Select, SelectDone, SelectRowid, IndexedSelect, IndexedSelectEq, PKSelect, Columns, on rowid and WITHOUT ROWID tables with overflow rows} x exit paths {normal, stop at row k for every k, callback panics at row k, no such table/column/index, fault at page read k for every k} run on the real file pager under a tracing pager (scheduling points: before/after every lock, unlock, page read, reserved-lock probe, and every row callback); other participants in atomic steps: W = real SQLite writer in another process (BEGIN IMMEDIATE, INSERT, COMMIT with busy_timeout 0), H2 = second sqlittle handle in the same process (Open, RLock, RUnlock, Close / a whole Select), H3 = sqlittle handle in another process; every interleaving with preemption bound 2 (pairs: unbounded in thorough); invariants at every point from /proc/locks: inside the call the process holds READ on the whole shared range, every page read lies inside the locked interval, a COMMIT attempted inside is BUSY, after return nothing is held on the pending byte and shared range and the writer can commit; the same handle calling twice (after a refused, an overlapped and a plain first call); plus database/sql result sets left open after k rows. non-trivial = executions with at least one preemption or a non-normal exit path"
 	img := c06Image()
 	ops := c06Ops()
 	// exit-path scenarios, alone (sequential monitor)
@@ -620,6 +628,10 @@ func runC06(r *ev.Run) {
 		}
 		if op.name == "SelectDone" || op.name == "Columns" || op.name == "IndexedSelect(w)" {
 			scen = append(scen, c06Scenario{op: op, others: "WX"})
+		}
+		if op.name == "SelectDone" || op.name == "Columns" || op.name == "IndexedSelectEq" || op.name == "PKSelect" {
+			// the same handle calls again after a call that was refused (writer in EXCLUSIVE), that overlapped a writer, or that simply returned
+			scen = append(scen, c06Scenario{op: op, others: "WX", repeat: true}, c06Scenario{op: op, others: "W", repeat: true}, c06Scenario{op: op, repeat: true})
 		}
 		if op.name == tripleOp {
 			scen = append(scen, c06Scenario{op: op, others: "H2+W"}, c06Scenario{op: op, others: "H3+W"})
